@@ -44,20 +44,33 @@ SEED_INPUTS: dict[str, list[tuple[str, str]]] = {
         ("Command", "delete from t where a in (1, 2, 3)"),
         ("Command", "create table t (a int primary key, b text)"),
         ("Command", "update t set a = a + 1 where b is null"),
+        ("Command", "select distinct a as x, count(*) from t group by a having count(*) > 1"),
+        ("Command", "select a from t where a between 1 and 2 or not (b like 'x%') union all select b from u"),
+        ("Command", "select cast(a as text), \"quoted id\" from \"T\" where a >= 1.5e3 and b != -2"),
+        ("Command", "drop table if exists t"),
+        ("Command", "create index i on t (a, b)"),
+        ("Command", "select a from (select b as a from t) as s left join u on s.a = u.a where exists (select 1 from v)"),
+        ("Command", "explain select * from t"),
+        ("Command", "insert into t values (1, 2), (3, 4) on conflict do nothing"),
+        ("Command", "select case when a > 1 then 'x' else 'y' end from t"),
     ],
     "jsonpath": [
         ("jsonpath", "$.store.book[*].author"), ("jsonpath", "$..book[?(@.price < 10)]"), ("jsonpath", "$['a','b'][0:2]"),
         ("jsonpath", "$[?@.a == 'x' && @.b > 1 || !@.c]"), ("jsonpath", "$[?length(@.a) >= 2]"), ("jsonpath", "$..*"), ("jsonpath", "$[-1:]"),
+        ("jsonpath", "$"), ("jsonpath", "$.a.b.c"), ("jsonpath", "$[0][1]['x']"), ("jsonpath", "$[1:10:2]"), ("jsonpath", "$[::-1]"), ("jsonpath", "$..['a','b']"),
+        ("jsonpath", '$["\\u00e9", "q\\"r"]'), ("jsonpath", "$[?match(@.a, 'x.*') && count(@.*) == 1.5e1]"), ("jsonpath", "$[?(@.a || @.b) && !(@.c < -1)]"),
+        ("jsonpath", "$[?@ == null || @ == true || @ == false]"), ("jsonpath", "$[?$.x[0] != @['y']]"), ("jsonpath", "$ .a [ 0 ] "),
     ],
     "calculator": [("program", "1 + 2 * 3"), ("program", "-x! ^ 2 - (3 / y)"), ("program", "5!"), ("program", "2 ^ 3 ^ 2"), ("program", " 1\t+\n2 ")],
     "calculator_prec": [("program", "1 + 2 * 3"), ("program", "-x! ^ 2 - (3 / y)"), ("program", "5!"), ("program", "2 ^ 3 ^ 2")],
-    "lists": [("lists", "- a\n- b\n  - c\n  - d\n- e"), ("lists", "- a"), ("lists", "- a\n  - b\n    - c\n- d")],
+    "lists": [("lists", "- a\n- b\n  - c\n  - d\n- e"), ("lists", "- a"), ("lists", "- a\n  - b\n    - c\n- d"), ("lists", "- a\n  - b\n  - c\n    - d\n  - e\n- f\n  - g"), ("lists", "- a\n    - too deep"), ("lists", "- a\n- b\n")],
     "csv": [("file", "1,2,3\n4,5,6\n"), ("file", "-1.5,2\n")],
     "ini": [("file", "[s]\na=1\nb=two\n\n[t]\nc=3\n"), ("file", "k=v\n")],
-    "http": [("http", "GET /index.html HTTP/1.1\r\nHost: example.com\r\n\r\n")],
+    "http": [("http", "GET /index.html HTTP/1.1\r\nHost: example.com\r\n\r\n"), ("http", "POST /a/b?c=d HTTP/1.0\r\nA: b\r\nC-D: e f\r\n\r\n"), ("http", "GET / HTTP/1.1\r\n\r\n"), ("http", "GET / HTTP/1.1\nHost: x\n\n")],
     "json_tests": [("json", '{"a": [1, 2.5e3, -0.1, true, false, null, "x\\n\\u00e9"], "b": {}}'), ("json", "[]"), ("json", "[[[]]]")],
     "json_example": [("json", '{"a": [1, 2.5e3, -0.1, true, false, null, "x\\n\\u00e9"], "b": {}}'), ("json", "[]"), ("json", "[[[]]]")],
-    "toml": [("toml", 'a = 1\nb = "two"\n[t]\nc = [1, 2]\nd = { x = 1 }\n'), ("toml", "# comment only\n"), ("toml", 'k = """multi\nline"""\n')],
+    "toml": [("toml", 'a = 1\nb = "two"\n[t]\nc = [1, 2]\nd = { x = 1 }\n'), ("toml", "# comment only\n"), ("toml", 'k = """multi\nline"""\n'),
+             ("toml", "[[arr]]\nx = 1979-05-27T07:32:00Z\ny = 1e6\nz = -0.5\n[[arr]]\nw = 0x1F\n"), ("toml", "a.b.c = true\n\"q k\" = 'lit'\n"), ("toml", "x = [ [1, 2], ['a', \"b\"] ] # c\n")],
 }
 
 
